@@ -201,7 +201,10 @@ theorem v1t_C15_guard_dropped_counterexample :
     void (stepGW { Guards.source with overviewAbsent := fun _ _ => false } exOps exDb
       (.update 1 { exSnap with sampleRate := none })).2 = .ub .empty_optional ∧
     void (stepGW { Guards.source with bpmFieldsInRange := fun b _ => b } exOps exDb
-      (.update 1 { exSnap with bpm := some 0x7fe0000000000000 })).2 = .ub .float_cast_range := by
+      (.update 1 { exSnap with bpm := some 0x7fe0000000000000 })).2 = .ub .float_cast_range ∧
+    -- track_utils.hpp: `qn == 0` replaced by `!(sample_rate > 0)`: a rate of 100 Hz divides by zero
+    void (stepGW { Guards.source with utilOvwZero := fun n _ r => n == 0 || !(F64.lt F64.zero r) } exOps exDb
+      (.update 1 { exSnap with sampleRate := some 0x4059000000000000 })).2 = .ub .div_zero := by
   decide +kernel
 
 /-! ### non-vacuity -/
